@@ -297,18 +297,7 @@ def literals(ctx):
             if c.get("k") == "mcall" and callee(c) == P + "get_bv_width" and tok_index(c["args"][1]) == 2:
                 width_id = i
     ctx.inst("R08.2", "parse_format:width-from-sort", width_id is not None, f["span"], "the literal's width must come from get_bv_width(tokens[2])")
-    # the function specialised to each literal operator: (value built, tokens consumed)
-    base_leaf = make_leaf()
-    p_op = (param_ids(f) + [None] * 4)[3]           # parse_format(&mut self, line, tokens, op)
-    ex = semterm.Extractor(defs, None, transparent, passthrough)
-
-    def leaf(n, env):
-        if n.get("k") == "mcall" and callee(n) == P + "parse_bv_lit_str" and len(n["args"]) == 4:
-            k_ = tok_index(n["args"][1])
-            if k_ is not None:
-                return ("parse_lit", ("tok", k_), ex.ev(n["args"][2], env), ex.ev(n["args"][3], env))
-        return base_leaf(n, env)
-    ex.leaf = leaf
+    rows_ = format_rows(f)
     want = {"const": ("parse_lit", ("tok", 3), ("lit", 2), ("sortwidth", 2)), "constd": ("parse_lit", ("tok", 3), ("lit", 10), ("sortwidth", 2)),
             "consth": ("parse_lit", ("tok", 3), ("lit", 16), ("sortwidth", 2)), "zero": ("zero", ("sortwidth", 2)), "one": ("one", ("sortwidth", 2))}
     for op, wterm in want.items():
@@ -316,14 +305,13 @@ def literals(ctx):
         shown = None
         ok = False
         if arm is not None:
-            try:
-                ex.spec = lambda e_, op=op: op if (p_op is not None and is_local(e_, p_op)) else None
-                got = ex.ev(f["body"], {})
+            got = rows_.get(op)
+            if isinstance(got, Opaque):
+                shown = "UNRECOGNISED (%s: %s)" % (got.why, show(got.node)[:60])
+            elif got is not None:
                 shown = fmt(got)
                 wcount = 4 if op.startswith("const") else 3
                 ok = got == ("tuple", wterm, ("lit", wcount))
-            except Opaque as e:
-                shown = "UNRECOGNISED (%s: %s)" % (e.why, show(e.node)[:60])
         what = ("parse token 3 with radix %d at the declared width" % wterm[2][1]) if op.startswith("const") else ("build Context::%s(declared width)" % op)
         ctx.inst("R08.2", "literal:%s" % op, ok, arm["sp"] if arm else f["span"], "`%s` must %s and report %d tokens: %s" % (op, what, 4 if op.startswith("const") else 3, shown), sample=shown)
     g = ctx.fn("patronus", P + "parse_ones")
@@ -335,6 +323,30 @@ def literals(ctx):
     calls = [x for x in walk(h["body"]) if x.get("k") == "call" and (callee(x) or "").endswith("from_str_radix")]
     ok = len(calls) == 1 and is_local(calls[0]["args"][0], HP.get("token")) and is_local(calls[0]["args"][1], HP.get("base")) and is_local(calls[0]["args"][2], HP.get("width"))
     ctx.inst("R08.2", "parse_bv_lit_str", ok, h["span"], "parse_bv_lit_str must call from_str_radix(token, base, width)")
+
+
+def format_rows(f):
+    """parse_format specialised to each literal operator: {op: ("tuple", value built, ("lit", tokens consumed)) | Opaque}"""
+    defs = local_defs(f)
+    base_leaf = make_leaf()
+    p_op = (param_ids(f) + [None] * 4)[3]           # parse_format(&mut self, line, tokens, op)
+    ex = semterm.Extractor(defs, None, transparent, passthrough)
+
+    def leaf(n, env):
+        if n.get("k") == "mcall" and callee(n) == P + "parse_bv_lit_str" and len(n["args"]) == 4:
+            k_ = tok_index(n["args"][1])
+            if k_ is not None:
+                return ("parse_lit", ("tok", k_), ex.ev(n["args"][2], env), ex.ev(n["args"][3], env))
+        return base_leaf(n, env)
+    ex.leaf = leaf
+    out = {}
+    for op in ("const", "constd", "consth", "zero", "one"):
+        try:
+            ex.spec = lambda e_, op=op: op if (p_op is not None and is_local(e_, p_op)) else None
+            out[op] = ex.ev(f["body"], {})
+        except Opaque as e:
+            out[op] = e
+    return out
 
 
 def negation(ctx):
